@@ -4,6 +4,7 @@ import (
 	"fmt"
 	"go/constant"
 	"go/token"
+	"strings"
 
 	"golang.org/x/tools/go/ssa"
 )
@@ -29,6 +30,46 @@ type AbstractResult struct {
 	Path  []int  // block indices visited
 	Value ssa.Value              // result 0 with the phis of the return block resolved along the path
 	Env   map[*ssa.Phi]ssa.Value // phi → incoming value on the evaluated path
+	// LoadVal maps a load executed on the path to the value a preceding store on
+	// the same path wrote to that address (locals, spilled results, fields).
+	LoadVal map[*ssa.UnOp]ssa.Value
+	Stores  []*ssa.Store // stores executed on the path, in order
+}
+
+// Resolve looks through the phis and loads of the evaluated path.
+func (r *AbstractResult) Resolve(v ssa.Value) ssa.Value {
+	for i := 0; i < 50; i++ {
+		switch x := v.(type) {
+		case *ssa.Phi:
+			if e, ok := r.Env[x]; ok {
+				v = e
+				continue
+			}
+		case *ssa.UnOp:
+			if e, ok := r.LoadVal[x]; ok {
+				v = e
+				continue
+			}
+		}
+		break
+	}
+	return v
+}
+
+func addrKey(a ssa.Value) string {
+	switch x := a.(type) {
+	case *ssa.Alloc:
+		return fmt.Sprintf("alloc@%p", x)
+	case *ssa.FieldAddr:
+		return addrKey(x.X) + "." + fieldName(x.X.Type(), x.Field)
+	case *ssa.Parameter:
+		return "p:" + x.Name()
+	case *ssa.UnOp:
+		if x.Op == token.MUL {
+			return "*" + addrKey(x.X)
+		}
+	}
+	return Describe(a)
 }
 
 // AbstractRun evaluates fn under rel. It fails on loops, on branches whose
@@ -46,7 +87,8 @@ func AbstractRunOpt(fn *ssa.Function, rel Rel, boolOf func(ssa.Value) (bool, boo
 	}
 	var pred *ssa.BasicBlock
 	b := fn.Blocks[0]
-	res := &AbstractResult{}
+	res := &AbstractResult{LoadVal: map[*ssa.UnOp]ssa.Value{}}
+	mem := map[string]ssa.Value{}
 	visits := map[*ssa.BasicBlock]int{}
 	env := map[*ssa.Phi]ssa.Value{}
 	CurrentEnv = env
@@ -57,16 +99,19 @@ func AbstractRunOpt(fn *ssa.Function, rel Rel, boolOf func(ssa.Value) (bool, boo
 			if x.Value != nil && x.Value.Kind() == constant.Bool {
 				return constant.BoolVal(x.Value), nil
 			}
-		case *ssa.UnOp:
-			if x.Op == token.NOT {
-				r, err := evalBool(x.X, from, at)
-				return !r, err
-			}
 		case *ssa.Phi:
 			if r, ok := env[x]; ok {
 				return evalBool(r, from, at)
 			}
 			return false, fmt.Errorf("phi not on the evaluated path")
+		case *ssa.UnOp:
+			if x.Op == token.NOT {
+				r, err := evalBool(x.X, from, at)
+				return !r, err
+			}
+			if lv, ok := res.LoadVal[x]; ok {
+				return evalBool(lv, from, at)
+			}
 		case *ssa.BinOp:
 			switch x.Op {
 			case token.EQL, token.NEQ, token.LSS, token.LEQ, token.GTR, token.GEQ:
@@ -134,6 +179,27 @@ func AbstractRunOpt(fn *ssa.Function, rel Rel, boolOf func(ssa.Value) (bool, boo
 				}
 			}
 		}
+		for _, in := range b.Instrs {
+			switch x := in.(type) {
+			case *ssa.Store:
+				mem[addrKey(x.Addr)] = x.Val
+				res.Stores = append(res.Stores, x)
+			case *ssa.UnOp:
+				if x.Op == token.MUL {
+					if v, ok := mem[addrKey(x.X)]; ok {
+						res.LoadVal[x] = v
+					}
+				}
+			case *ssa.Call:
+				if _, isB := x.Common().Value.(*ssa.Builtin); !isB {
+					for k := range mem {
+						if !strings.HasPrefix(k, "alloc@") {
+							delete(mem, k)
+						}
+					}
+				}
+			}
+		}
 		last := b.Instrs[len(b.Instrs)-1]
 		switch t := last.(type) {
 		case *ssa.Jump:
@@ -188,6 +254,37 @@ type Lin struct {
 // phis of an abstract run. ok=false when v leaves the fragment
 // (+, −, × const, / c and % c with c | M·gcd…, constants, conversions).
 func LinEval(v ssa.Value, sym ssa.Value, M, r int64, env map[*ssa.Phi]ssa.Value) (Lin, bool) {
+	return LinEvalF(v, func(x ssa.Value) bool { return x == sym }, M, r, func(x ssa.Value) ssa.Value {
+		if p, ok := x.(*ssa.Phi); ok {
+			if e, ok := env[p]; ok {
+				return e
+			}
+		}
+		return x
+	})
+}
+
+// LinEvalF is LinEval with a symbol predicate and a value resolver (phis and
+// loads of an abstract run).
+func LinEvalF(v ssa.Value, isSym func(ssa.Value) bool, M, r int64, resolve func(ssa.Value) ssa.Value) (Lin, bool) {
+	return linEval(v, isSym, M, r, resolve, 0)
+}
+
+func linEval(v ssa.Value, isSym func(ssa.Value) bool, M, r int64, resolve func(ssa.Value) ssa.Value, depth int) (Lin, bool) {
+	if depth > 60 {
+		return Lin{}, false
+	}
+	if rv := resolve(v); rv != v {
+		return linEval(rv, isSym, M, r, resolve, depth+1)
+	}
+	LinEval := func(v ssa.Value, _ ssa.Value, M, r int64, _ map[*ssa.Phi]ssa.Value) (Lin, bool) {
+		return linEval(v, isSym, M, r, resolve, depth+1)
+	}
+	var sym ssa.Value
+	var env map[*ssa.Phi]ssa.Value
+	if isSym(v) {
+		return Lin{M, r, 0}, true
+	}
 	switch x := v.(type) {
 	case *ssa.Phi:
 		if e, ok := env[x]; ok {
@@ -294,4 +391,13 @@ func sign(x int64) int {
 		return 1
 	}
 	return 0
+}
+
+// RetValOnPath is the i-th result of the return reached by an abstract run,
+// with the defer spill resolved through the run's load map.
+func RetValOnPath(r *AbstractResult, i int) ssa.Value {
+	if r.Ret == nil || i >= len(r.Ret.Results) {
+		return nil
+	}
+	return r.Resolve(r.Ret.Results[i])
 }
